@@ -30,6 +30,13 @@ items = []
 for it in glue.UNIT['items']:
     if isinstance(it, Fn) and not it.external_body and it.qual in ('CompiledLookahead::try_from_lookahead', 'CompiledDfa::add_lookahead', 'CompiledDfa::try_from_patterns', 'Pattern::lookahead'):
         items.append(as_contract(it, 'contract proved in unit U-glue'))
+    elif isinstance(it, RawFile) and it.label == 'ast_types.rs':
+        # the AST with the class level transparent (leaf_sem is defined over it), instead of the opaque leaves the other build units use
+        for f in ('class_types.rs', 'ast_upper_types.rs', 'class_sem.rs', 'leaf_sem.rs'):
+            items.append(RawFile(os.path.join(HERE, '..', 'common', f), f))
+    elif isinstance(it, RawFile) and it.label == 'same_class_decl.rs':
+        # registry equality DEFINED (as ComparableAst::eq is proved to compute it, unit U-reg), with the lemma that leaf_sem respects it
+        items.append(RawFile(os.path.join(HERE, '..', 'common', 'same_class_def.rs'), 'same_class_def.rs'))
     else:
         items.append(absfile(it, os.path.join(HERE, '..', 'u_glue')))
 
@@ -59,16 +66,15 @@ ensures
         && (forall|k: int| 0 <= k < %(modes)s.len() ==> mode_built(%(modes)s, k, #[trigger] s.scanner_modes@[k]))
         // the registry stored in the scanner (and handed to create_match_char_class) is the final one: every class id of every automaton indexes into it
         // (theorem_scanner_classes_registered)
-        && s.character_classes.view() == final_reg(%(modes)s),
+        && s.character_classes.view() == final_reg(%(modes)s)
+        // the class predicate stored in the scanner is the one built from that registry: callable on every registered id (the bound of its
+        // unsafe get_unchecked) and equal to the class layer's meaning of the registered leaf (contract of create_match_char_class, unit U-reg)
+        && cls_built(&*s.match_char_class, final_reg(%(modes)s)),
 '''
 FINAL = '''
 proof {
-    assert forall|i: int| 0 <= i < compiled_scanner_modes@.len() implies mode_wf(#[trigger] compiled_scanner_modes@[i], compiled_scanner_modes@.len() as int) by {
-        assert(mode_built(modes, i, compiled_scanner_modes@[i]));
-        theorem_dfa_built_wf(modes[i].patterns@, mode_reg(modes, i), compiled_scanner_modes@[i].dfa, mode_reg(modes, i + 1));
-        assert(sorted_tr(modes[i].transitions@));
-        assert forall|k: int| 0 <= k < modes[i].transitions@.len() implies (#[trigger] modes[i].transitions@[k]).1.0 < modes.len() by { }
-    }
+    assert(character_class_registry.view() == final_reg(modes));
+    lemma_scanner_final(modes, compiled_scanner_modes@, &*match_char_class);
 }
 '''
 
@@ -87,8 +93,12 @@ proof { assert(%sscanner_mode == modes[k]); assert(mode_fits(modes[k].patterns@,
             Ins('before', 'Ok(Self {', FINAL),
         ] + clone_edit)
 
-try_from_vec = try_from('TryFrom<Vec<ScannerMode>> for ScannerImpl', 'try_from__vec', 'scanner_modes@', '', [])
-try_from_slice = try_from('TryFrom<&[ScannerMode]> for ScannerImpl', 'try_from__slice', 'scanner_modes@', '*', [])
+def _hidden(f):
+    f.hide = ('mode_fits',)  # its quantifier over the patterns of a mode re-instantiates itself through mp_th (matching loop, measured: 80 s instead of 0.7 s)
+    return f
+
+try_from_vec = _hidden(try_from('TryFrom<Vec<ScannerMode>> for ScannerImpl', 'try_from__vec', 'scanner_modes@', '', []))
+try_from_slice = _hidden(try_from('TryFrom<&[ScannerMode]> for ScannerImpl', 'try_from__slice', 'scanner_modes@', '*', []))
 
 items += [
     IdMacro(F_IDS, 'ScannerModeID', members=('new', 'as_usize'), index_for=(), specs={'new': 'ensures r.0 == index', 'as_usize': 'ensures r == self.0'}),
@@ -102,6 +112,8 @@ items += [
     RawFile('build_empty.rs'),
     RawFile(os.path.join(HERE, '..', 'common', 'scanner_wf.rs'), 'scanner_wf.rs'),
     RawFile('build_spec.rs'),
+    RawFile(os.path.join(HERE, '..', 'common', 'cls_built.rs'), 'cls_built.rs'),
+    RawFile('build_pred.rs'),
     Raw('''
 impl Clone for ScannerMode {
     // TRUSTED: #[derive(Clone)] on ScannerMode copies every field
@@ -109,14 +121,14 @@ impl Clone for ScannerMode {
     fn clone(&self) -> (r: Self) ensures r == *self { unimplemented!() }
 }
 impl CharacterClassRegistry {
-    // TRUSTED (class layer, not under contract): the closure built from the registry is a total, deterministic function of (class id, char);
-    // the boxed `dyn Fn` is the scanner's type parameter M (rule E2)
+    // contract PROVED in unit U-reg for the closure the function returns (there: `-> Result<impl Fn(CharClassID, char) -> bool>`); here the
+    // boxed `dyn Fn` is the scanner's type parameter M (rule E2), about which nothing else is known
     #[verifier::external_body]
     pub fn create_match_char_class<M: Fn(CharClassID, char) -> bool>(&self) -> (r: Result<M>)
-        ensures r matches Ok(f) ==> cls_functional(&f)
+        ensures r matches Ok(f) ==> cls_built(&f, self.view())
     { unimplemented!() }
 }
-''', label='trusted: derived Clone of ScannerMode; contract of create_match_char_class'),
+''', label='trusted: derived Clone of ScannerMode; contract of create_match_char_class (proved in U-reg)'),
     Fn(F_REG, 'CharacterClassRegistry', 'new', ret='r', props=P, spec='ensures r.view() == Seq::<Ast>::empty()'),
     try_from_scanner_mode,
     try_from_vec,
@@ -126,7 +138,7 @@ impl CharacterClassRegistry {
 UNIT = dict(
     name='u_build',
     externs=glue.UNIT['externs'],
-    header=glue.UNIT['header'] + 'use std::sync::Arc;\n',
+    header=glue.UNIT['header'] + 'use std::sync::Arc;\nuse regex_syntax::ast::{ClassSet, ClassSetBinaryOp, ClassSetBinaryOpKind, ClassSetItem, ClassSetRange, ClassSetUnion, LiteralKind, ClassAscii, HexLiteralKind, SpecialLiteralKind};\n',
     generic_types=[('ScannerImpl', 'M', 'Fn(CharClassID, char) -> bool')],
     items=items,
 )
